@@ -475,6 +475,8 @@ def check(ctx):
               'falsy_makers_in_Part_hierarchy': [f'{c.name}.{m}' for c, m in falsy]})
     obs.append(ctx.shared('c12', 'C12.3', 'C13.9', 'a default work order restores its target when it ends: two orders in progress on one target would bring the machine up '
                           'when the first ends, while the second still runs -- the maintainer must never start an order whose target is being worked on'))
+    obs.append(ctx.shared('c07', 'C07.2', 'C13.11', 'a restored machine goes on where it stopped: every event that was paused with it is resumed, shifted by the length of the pause '
+                          '(an unpause that skips or loses one leaves the part in process for ever, or drops a scheduled failure)'))
     obs.append(ctx.shared('c20', 'C20.1b', 'C13.10', 'uptime is counted from the stamp initialize() writes: the constructor must not write the accounting fields again after '
                           'the base constructor has registered (and, for a machine created while the simulation runs, already initialised) the device'))
     return obs
